@@ -202,16 +202,19 @@ CheckSigAddOp(ctx, vm) ==
 
 \* OP_CHECKMULTISIG: in-order matching of signatures to keys.
 \* isig/ikey are distances from the top (1 = top) of the current signature / key.
-RECURSIVE MultisigLoop(_, _, _, _, _, _, _)
-MultisigLoop(ctx, s, code, isig, ikey, nsigs, nkeys) ==
+\* generic over the pair evaluation P(sig, key) = [err, ok], so that the matching discipline can be model-checked abstractly
+RECURSIVE MultisigLoopG(_, _, _, _, _, _)
+MultisigLoopG(P(_, _), s, isig, ikey, nsigs, nkeys) ==
     \* returns [err, success]
     IF nsigs = 0 THEN [err |-> "", success |-> TRUE]
-    ELSE LET p == MultisigPair(ctx, Top(s, isig), Top(s, ikey), code) IN
+    ELSE LET p == P(Top(s, isig), Top(s, ikey)) IN
          IF p.err # "" THEN [err |-> p.err, success |-> FALSE]
          ELSE LET isig2 == IF p.ok THEN isig + 1 ELSE isig
                   nsigs2 == IF p.ok THEN nsigs - 1 ELSE nsigs
               IN IF nsigs2 > nkeys - 1 THEN [err |-> "", success |-> FALSE]
-                 ELSE MultisigLoop(ctx, s, code, isig2, ikey + 1, nsigs2, nkeys - 1)
+                 ELSE MultisigLoopG(P, s, isig2, ikey + 1, nsigs2, nkeys - 1)
+MultisigLoop(ctx, s, code, isig, ikey, nsigs, nkeys) ==
+    MultisigLoopG(LAMBDA sg, k : MultisigPair(ctx, sg, k, code), s, isig, ikey, nsigs, nkeys)
 
 RECURSIVE FADAll(_, _, _, _, _)
 FADAll(code, s, isig, k, nsigs) == \* <<anyFound, code'>> after FindAndDelete of signatures k..nsigs-1
